@@ -440,7 +440,7 @@ func init() {
 		ruleWaitProtocol(r)
 		ruleFlusher(r)
 		// the hand-shake fields are shared between writers and the flusher
-		r.support([]string{"race", "lock-balanced", "lock-paths", "completion", "flush-ack"})
+		r.support([]string{"race", "lock-balanced", "lock-paths", "completion", "flush-ack", "notice-owners"})
 	},
 		"Decides the shape of the back-pressure protocol, each rule a necessary condition of 'no lost wake-up', not freedom from lost wake-ups over all schedules (a model-checking question): every successful return of Store.Flush passes the broadcast point (test-and-close of flushNotice under rateLk, directly or through a helper all of whose paths do); close is followed by flushNotice=nil before the lock is released; flushTick creates-if-nil and loads the channel in one exclusive rateLk section, waits on that loaded value without holding the lock, signals flushNow with a non-blocking send after registering and before waiting; the flusher serves every flushNow signal with a Flush, only ever sends to flushNow non-blockingly, and flushNow is buffered. Not covered: fairness/progress under all interleavings, waiters when a flush fails or when Close races a waiter.",
 		"the statement excludes failing flushes; only success returns of Flush are obliged to broadcast")
